@@ -219,6 +219,7 @@ func RunTrackers(env *Env, plan *TrackerPlan) {
 	cfgMin := sut.Cfg.TrackerMinAnnounceInterval
 	var tierSeq = map[string][]string{} // "torrent/tier" -> sequence of "name:ok|fail"
 	var tierAt = map[string][]time.Duration{}
+	var tierRep = map[string][]time.Duration{}
 	onAnn := func(ta *TrackerActor) func(a *Announce) {
 		return func(a *Announce) {
 			mu.Lock()
@@ -344,9 +345,13 @@ func RunTrackers(env *Env, plan *TrackerPlan) {
 				}
 				if a.Ambiguous {
 					res = "unknown"
+					if a.NearTimeout {
+						res = "near"
+					}
 				}
 				tierSeq[k] = append(tierSeq[k], ta.Name+":"+res)
 				tierAt[k] = append(tierAt[k], a.At)
+				tierRep[k] = append(tierRep[k], simrt.Now()) // recorded when the reply has been written
 			}
 		}
 	}
@@ -445,11 +450,32 @@ func RunTrackers(env *Env, plan *TrackerPlan) {
 				idx[i] = i
 			}
 			sort.SliceStable(idx, func(a, b int) bool { return tierAt[k][idx[a]] < tierAt[k][idx[b]] })
-			s2, a2 := make([]string, len(idx)), make([]time.Duration, len(idx))
+			s2, a2, r2 := make([]string, len(idx)), make([]time.Duration, len(idx)), make([]time.Duration, len(idx))
 			for i, j := range idx {
-				s2[i], a2[i] = tierSeq[k][j], tierAt[k][j]
+				s2[i], a2[i], r2[i] = tierSeq[k][j], tierAt[k][j], tierRep[k][j]
 			}
-			tierSeq[k], tierAt[k] = s2, a2
+			tierSeq[k], tierAt[k], tierRep[k] = s2, a2, r2
+			// an outcome the client cannot have seen: the next request left the client before
+			// (or just as) the reply can have reached it - an event (completion, a manual
+			// announce) made it cancel the announce in flight and send a new one
+			for i := range s2 {
+				// left about when the client's time-out was due: after its time-out the client
+				// waits (back-off) before it announces again, after a cancel it announces at once
+				if name, res, _ := strings.Cut(s2[i], ":"); res == "near" {
+					if i+1 < len(s2) && a2[i+1]-r2[i] >= time.Second {
+						s2[i] = name + ":fail"
+					} else {
+						s2[i] = name + ":unknown"
+					}
+				}
+			}
+			for i := 0; i+1 < len(s2); i++ {
+				if a2[i+1]-r2[i] < 2*(plan.Net.LatMax+plan.Net.Jitter)+50*time.Millisecond {
+					name, _, _ := strings.Cut(s2[i], ":")
+					s2[i] = name + ":unknown"
+					simrt.Count("probe.tracker.next_before_reply_seen", 1)
+				}
+			}
 		}
 		seq := tierSeq[k]
 		var tierIdx int
